@@ -805,6 +805,53 @@ theorem runFrom_at_recv (tx : List TOp) (cache : Risk.PreCache) (r : Nat) : ∀ 
         exact ⟨w, w1, hp, hc, hs1⟩
     · cases h
 
+/-- `runFrom_at_recv`, naming the reached state: instruction `j` ran on `w0.before tx j` -/
+theorem runFrom_at_recv_b (tx : List TOp) (w0 : WState) (cache : Risk.PreCache) (r : Nat) : ∀ (rest : List TOp) (i : Nat) (w w' : WState), 1 ≤ i → tx.drop i = rest →
+    w0.before tx i = some w → WState.runFrom tx i rest w = some w' → RecvInv tx i w → CacheInv cache r w →
+    ∀ (j : Nat) (t : TOp), i ≤ j → tx[j]? = some t →
+      ∃ (wj wj' : WState), w0.before tx j = some wj ∧ RecvInv tx j wj ∧ CacheInv cache r wj ∧ wj.stepIn tx j t = some wj' := by
+  intro rest
+  induction rest with
+  | nil =>
+    intro i w w' h1 hd _ h hp hc j t hij hj
+    have hlen : tx.length ≤ i := by
+      rcases Nat.lt_or_ge i tx.length with h1 | h1
+      · have : (tx.drop i).length = tx.length - i := List.length_drop
+        rw [hd] at this; simp at this; omega
+      · exact h1
+    have : j < tx.length := by
+      rcases Nat.lt_or_ge j tx.length with h1 | h1
+      · exact h1
+      · rw [List.getElem?_eq_none h1] at hj; cases hj
+    omega
+  | cons op rest ih =>
+    intro i w w' hi1 hd hbef h hp hc j t hij hj
+    obtain ⟨hti, hd'⟩ := drop_cons_facts hd
+    simp only [WState.runFrom] at h
+    split at h
+    · rename_i w1 hs1
+      rcases Nat.lt_or_ge i j with hlt | hge
+      · have hlt' : i < tx.length := by
+          rcases Nat.lt_or_ge i tx.length with h2 | h2
+          · exact h2
+          · rw [List.getElem?_eq_none h2] at hti; cases hti
+        have htake : tx.take (i + 1) = tx.take i ++ [op] := by
+          rw [List.take_succ, hti]; rfl
+        have hbef1 : w0.before tx (i + 1) = some w1 := by
+          unfold WState.before at hbef ⊢
+          rw [htake]
+          apply runFrom_snoc tx (tx.take i) 0 w0 w w1 op hbef
+          have : (tx.take i).length = i := by simp [List.length_take]; omega
+          rw [this, Nat.zero_add]; exact hs1
+        exact ih (i + 1) w1 w' (by omega) hd' hbef1 h (stepIn_recv hti hs1 hp) (stepIn_cache hi1 hti hs1 hp hc) j t (by omega) hj
+      · have : j = i := by omega
+        subst this
+        rw [hti] at hj
+        injection hj with hj
+        subst hj
+        exact ⟨w, w1, hbef, hp, hc, hs1⟩
+    · cases h
+
 /-- **the bracket of a committed transaction**: if a committed transaction (started with nobody in receivership) opens with
     `start_liquidation` of account `a0` naming receiver `r`, then the account was not healthy at maintenance level on the state the
     transaction found, the transaction's LAST instruction is an `end_liquidation` of the SAME account signed by `r`, and that end
@@ -815,7 +862,7 @@ theorem tx_liquidation_closed {w w' : WState} {tx : List TOp} (h : w.runTx tx = 
     ∃ (a : AcctV) (ps0 : List Risk.Pos) (cache : Risk.PreCache),
       w.accts[a0]? = some a ∧ (w.rctx a ok r true 0).portfolio = .ok ps0 ∧ Risk.startReceivership ps0 false = .ok cache ∧
       ∃ (signer : Nat) (rok wok : Bool) (feeMax : Int), tx[tx.length - 1]? = some (.endLiq a0 signer rok wok feeMax) ∧ signer = r ∧
-        ∃ (wl : WState) (al : AcctV) (psl : List Risk.Pos) (seized repaid : Int), wl.accts[a0]? = some al ∧
+        ∃ (wl : WState) (al : AcctV) (psl : List Risk.Pos) (seized repaid : Int), w.before tx (tx.length - 1) = some wl ∧ wl.accts[a0]? = some al ∧
           (wl.rctx al rok signer wok feeMax).portfolio = .ok psl ∧ Risk.endLiquidation cache psl feeMax = .ok (seized, repaid) := by
   -- the first step
   cases tx with
@@ -832,6 +879,8 @@ theorem tx_liquidation_closed {w w' : WState} {tx : List TOp} (h : w.runTx tx = 
         rw [h0 k a hk] at hf; cases hf
       have hp1 := stepIn_recv (tx := TOp.startLiq a0 r ok :: rest) (i := 0) rfl h1 hp0
       have h1' := h1
+      have hbef1 : w.before (TOp.startLiq a0 r ok :: rest) 1 = some w1 := by
+        simp [WState.before, WState.runFrom, h1']
       simp only [WState.stepIn] at h1
       split at h1
       · rename_i a ha
@@ -863,7 +912,7 @@ theorem tx_liquidation_closed {w w' : WState} {tx : List TOp} (h : w.runTx tx = 
             have hend : isEndLiq tl = true := by
               rw [List.getLast?_eq_getElem?, hl] at hlast
               simpa using hlast
-            obtain ⟨wl, wl', hrl, hcl, hsl⟩ := runFrom_at_recv tx o.cache r rest 1 _ w' (Nat.le_refl 1) (by simp [etx]) hrun hp1 hc1
+            obtain ⟨wl, wl', hbl, hrl, hcl, hsl⟩ := runFrom_at_recv_b tx w o.cache r rest 1 _ w' (Nat.le_refl 1) (by simp [etx]) hbef1 hrun hp1 hc1
               (tx.length - 1) tl hlen hl
             cases tl with
             | endLiq aj signer rok wok feeMax =>
@@ -890,7 +939,7 @@ theorem tx_liquidation_closed {w w' : WState} {tx : List TOp} (h : w.runTx tx = 
                   subst eaj
                   simp only [WState.rctx] at hrr hendl hpsl
                   rw [hcache'] at hendl
-                  refine ⟨a, ps0, o.cache, ha, hps0, hcache, signer, rok, wok, feeMax, rfl, ?_, wl, al, psl, oe.seized, oe.repaid, hal, hpsl, hendl⟩
+                  refine ⟨a, ps0, o.cache, ha, hps0, hcache, signer, rok, wok, feeMax, rfl, ?_, wl, al, psl, oe.seized, oe.repaid, hbl, hal, hpsl, hendl⟩
                   rw [← hrr, hrecv']
                 · cases hsl
               · cases hsl
@@ -915,7 +964,7 @@ theorem tx_deleverage_closed {w w' : WState} {tx : List TOp} (h : w.runTx tx = s
       w.accts[a0]? = some a ∧ w.g.riskAdmin = r ∧ a.group = w.g.key ∧
       (w.rctx a ok r true 0).portfolio = .ok ps0 ∧ Risk.startReceivership ps0 true = .ok cache ∧
       ∃ (signer : Nat) (rok : Bool), tx[tx.length - 1]? = some (.endDelev a0 signer rok) ∧ signer = r ∧
-        ∃ (wl : WState) (al : AcctV) (psl : List Risk.Pos) (seized repaid : Int), wl.accts[a0]? = some al ∧
+        ∃ (wl : WState) (al : AcctV) (psl : List Risk.Pos) (seized repaid : Int), w.before tx (tx.length - 1) = some wl ∧ wl.accts[a0]? = some al ∧
           (wl.rctx al rok signer true 0).portfolio = .ok psl ∧ Risk.endDeleverage cache psl = .ok (seized, repaid) := by
   -- the first step
   cases tx with
@@ -932,6 +981,8 @@ theorem tx_deleverage_closed {w w' : WState} {tx : List TOp} (h : w.runTx tx = s
         rw [h0 k a hk] at hf; cases hf
       have hp1 := stepIn_recv (tx := TOp.startDelev a0 r ok :: rest) (i := 0) rfl h1 hp0
       have h1' := h1
+      have hbef1 : w.before (TOp.startDelev a0 r ok :: rest) 1 = some w1 := by
+        simp [WState.before, WState.runFrom, h1']
       simp only [WState.stepIn] at h1
       split at h1
       · rename_i a ha
@@ -963,7 +1014,7 @@ theorem tx_deleverage_closed {w w' : WState} {tx : List TOp} (h : w.runTx tx = s
             have hend : isEndDelev tl = true := by
               rw [List.getLast?_eq_getElem?, hl] at hlast
               simpa using hlast
-            obtain ⟨wl, wl', hrl, hcl, hsl⟩ := runFrom_at_recv tx o.cache r rest 1 _ w' (Nat.le_refl 1) (by simp [etx]) hrun hp1 hc1
+            obtain ⟨wl, wl', hbl, hrl, hcl, hsl⟩ := runFrom_at_recv_b tx w o.cache r rest 1 _ w' (Nat.le_refl 1) (by simp [etx]) hbef1 hrun hp1 hc1
               (tx.length - 1) tl hlen hl
             cases tl with
             | endDelev aj signer rok =>
@@ -990,7 +1041,7 @@ theorem tx_deleverage_closed {w w' : WState} {tx : List TOp} (h : w.runTx tx = s
                   subst eaj
                   simp only [WState.rctx] at hrr hendl hpsl
                   rw [hcache'] at hendl
-                  refine ⟨a, ps0, o.cache, ha, hadm, hgrp, hps0, hcache, signer, rok, rfl, ?_, wl, al, psl, oe.seized, oe.repaid, hal, hpsl, hendl⟩
+                  refine ⟨a, ps0, o.cache, ha, hadm, hgrp, hps0, hcache, signer, rok, rfl, ?_, wl, al, psl, oe.seized, oe.repaid, hbl, hal, hpsl, hendl⟩
                   rw [← hrr, hrecv']
                 · cases hsl
               · cases hsl
